@@ -20,6 +20,7 @@
 #include "events.h"
 #include "http.h"
 #include "sock.h"
+#include "warnp.h"
 
 #include "sim.h"
 #include "simalloc.h"
@@ -230,6 +231,20 @@ build_response(const struct plan * P, const struct pline * l, int is_final, int 
 		free(p);
 	}
 	fpos = nhdr > 0 ? (int)(h64(hdrseed, 999) % (uint64_t)(nhdr + 1)) : 0;
+	if (h64(hdrseed, 4242) % 6 == 0) {
+		/* legal headers whose names merely resemble the framing headers (they must not influence framing) */
+		static const char * const near[] = { "Content-Length-Original", "Transfer-Encoding-Supported", "X-Content-Length",
+		    "Content-Lengthy", "Transfer-Encodings", "Content-Length2", "X-Transfer-Encoding", "Content-Len" };
+		static const char * const nval[] = { "3", "chunked", "0", "99999999999", "gzip", "7", "identity", "chunked, gzip" };
+		int w = (int)(h64(hdrseed, 4243) % 8), v = (int)(h64(hdrseed, 4244) % 8);
+
+		bb_str(&RESP, near[w]);
+		bb_str(&RESP, ": ");
+		bb_str(&RESP, nval[v]);
+		bb_str(&RESP, "\r\n");
+		if (is_final)
+			record_header(near[w], nval[v]);
+	}
 	for (i = 0; i <= nhdr; i++) {
 		if (i == fpos) {
 			if (framing == 0) {
@@ -243,9 +258,16 @@ build_response(const struct plan * P, const struct pline * l, int is_final, int 
 				if (is_final)
 					record_header("Content-Length", tmp);
 			} else if (framing == 1) {
-				bb_str(&RESP, "Transfer-Encoding: chunked\r\n");
+				/* a list of codings ending in chunked is chunked framing too */
+				static const char * const te[] = { "chunked", "chunked", "chunked", "chunked", "gzip, chunked", "identity, chunked",
+				    "x-custom ,chunked", "chunked" };
+				const char * v = te[h64(hdrseed, 556) % 8];
+
+				bb_str(&RESP, "Transfer-Encoding: ");
+				bb_str(&RESP, v);
+				bb_str(&RESP, "\r\n");
 				if (is_final)
-					record_header("Transfer-Encoding", "chunked");
+					record_header("Transfer-Encoding", v);
 			}
 		}
 		if (i < nhdr)
@@ -361,7 +383,7 @@ apply_mutations(const struct pline * m)
 
 		R->cnt[N_MUT]++;
 		EX.known = 0;
-		switch (kind % 12) {
+		switch (kind % 14) {
 		case 0:	/* truncate */
 			RESP.n = pos;
 			R->cnt[N_TRUNC]++;
@@ -475,6 +497,39 @@ apply_mutations(const struct pline * m)
 		case 10:	/* append junk after the end */
 			bb_str(&RESP, "\r\nGARBAGE\r\n\r\n0\r\n\r\n");
 			break;
+		case 12: {	/* a very long invalid status line (the library quotes it in a warning) */
+			size_t k, n = 4000 + (size_t)(b % 3000);
+			char * g = malloc(n + 32);
+
+			memcpy(g, "HTTP/1.1 abc ", 13);
+			memset(g + 13, 'S', n);
+			memcpy(g + 13 + n, "\r\n", 2);
+			for (k = 0; k + 2 <= RESP.n; k++)
+				if (memcmp(RESP.p + k, "\r\n", 2) == 0)
+					break;
+			if (k + 2 <= RESP.n) {
+				memmove(RESP.p, RESP.p + k + 2, RESP.n - k - 2);
+				RESP.n -= k + 2;
+			}
+			bb_insert(&RESP, 0, g, 15 + n);
+			free(g);
+			break;
+		}
+		case 13: {	/* a very long non-numeric Content-Length value */
+			size_t k, n = 4000 + (size_t)(b % 3000);
+			char * g = malloc(n + 32);
+
+			memcpy(g, "Content-Length: ", 16);
+			memset(g + 16, '9', n);
+			g[16 + n / 2] = 'x';
+			memcpy(g + 16 + n, "\r\n", 2);
+			for (k = 0; k + 2 <= RESP.n; k++)
+				if (memcmp(RESP.p + k, "\r\n", 2) == 0)
+					break;
+			bb_insert(&RESP, k + 2 <= RESP.n ? k + 2 : RESP.n, g, 18 + n);
+			free(g);
+			break;
+		}
 		case 11:	/* swap CRLF for bare LF somewhere */
 			if (RESP.n > 2) {
 				size_t k;
@@ -497,7 +552,8 @@ static struct http_header hreq_headers[12];
 static char hreq_store[12][2][64];
 static char hreq_path[128];
 static uint8_t * hreq_body;
-static const char * const methods[] = { "GET", "HEAD", "POST", "PUT", "DELETE" };
+static const char * const methods[] = { "GET", "HEAD", "POST", "PUT", "DELETE", "head", "Head", "HEADER", "get", "OPTIONS" };
+#define NMETHODS 10
 
 static void
 build_request(const struct plan * P)
@@ -508,7 +564,7 @@ build_request(const struct plan * P)
 
 	if (m < 0)
 		m = -m;
-	m %= 5;
+	m %= NMETHODS;
 	if (nh < 0)
 		nh = 0;
 	if (nh > 12)
@@ -857,7 +913,7 @@ engine_gen(struct plan * P, uint64_t seed, struct prng * g)
 {
 	int c09 = !strcmp(sim_prop, "C09"), c14 = !strcmp(sim_prop, "C14");
 	int host = c09 ? 0 : (c14 ? prng_chance(g, 15) : prng_chance(g, 80));
-	int method = (int)prng_n(g, 5), status, framing, nint, i, nhdr, na;
+	int method = (int)(prng_chance(g, 85) ? prng_n(g, 5) : prng_n(g, NMETHODS)), status, framing, nint, i, nhdr, na;
 	size_t bodylen, mrl;
 	struct pline * l;
 	int segstyle;
@@ -869,7 +925,8 @@ engine_gen(struct plan * P, uint64_t seed, struct prng * g)
 	plan_add(P, "knob", "req_bodylen", 1, (int64_t)((method == 2 || method == 3) ? (prng_chance(g, 20) ? prng_n(g, 30000) : prng_n(g, 300)) : (prng_chance(g, 10) ? prng_n(g, 50) : 0)));
 	plan_add(P, "knob", "req_pathlen", 1, (int64_t)(1 + prng_n(g, 40)));
 	plan_add(P, "knob", "req_seed", 1, (int64_t)prng_n(g, 1000000));
-	plan_add(P, "knob", "fd_base", 1, (int64_t)(prng_chance(g, 15) ? 3 + prng_n(g, 100) : 3));
+	plan_add(P, "knob", "fd_base", 1, (int64_t)(prng_chance(g, 15) ? 3 + prng_n(g, 100) : prng_chance(g, 10) ? 0 : 3));
+	plan_add(P, "knob", "syslog", 1, (int64_t)prng_chance(g, 20));
 	plan_add(P, "knob", "fill", 1, (int64_t)(prng_chance(g, 30) ? ' ' : prng_chance(g, 30) ? '7' : prng_chance(g, 50) ? 256 : 0));
 	/* addresses */
 	na = c14 ? 1 + (int)prng_n(g, 2) : (prng_chance(g, 80) ? 1 : 1 + (int)prng_n(g, 3));
@@ -937,7 +994,7 @@ engine_gen(struct plan * P, uint64_t seed, struct prng * g)
 
 		l = plan_add(P, "mut", "0", 0);
 		for (k = 0; k < nm; k++) {
-			static const int kinds[] = { 0, 0, 1, 2, 3, 4, 4, 4, 4, 5, 6, 6, 7, 7, 8, 9, 10, 11 };
+			static const int kinds[] = { 0, 0, 1, 2, 3, 4, 4, 4, 4, 5, 6, 6, 7, 7, 8, 9, 10, 11, 12, 13 };
 
 			pline_tok(l, 3, (int64_t)kinds[prng_n(g, sizeof(kinds) / sizeof(kinds[0]))], (int64_t)prng_n(g, 100000), (int64_t)prng_n(g, 100000));
 		}
@@ -1037,13 +1094,19 @@ engine_run(const struct plan * P)
 	hostile = (int)plan_knob(P, "hostile", 0);
 	maxrlen = (size_t)plan_knob(P, "maxrlen", 0);
 	vk_fd_base = (int)plan_knob(P, "fd_base", 3);
-	if (vk_fd_base < 3)
-		vk_fd_base = 3;
+	if (vk_fd_base < 0)
+		vk_fd_base = 0;	/* (a daemon with descriptors 0-2 closed gets 0 from socket()) */
 	if (vk_fd_base > 200)
 		vk_fd_base = 200;
 	simalloc_fill = (int)plan_knob(P, "fill", -1);
 	simalloc_fill_seed = 4242;
 	cancel_after = (int)plan_knob(P, "cancel_after", -1);
+	if (plan_knob(P, "syslog", 0) == 1) {
+		/* an application may route the library's warnings to syslog (which is stubbed out here) */
+		LIB_ENTER();
+		warnp_syslog(1);
+		LIB_LEAVE();
+	}
 	vk_on_socket = on_socket;
 	vk_on_connect = on_connect;
 	vk_on_deadlock = on_deadlock;
